@@ -44,6 +44,8 @@ class AlphaRename(ast.NodeTransformer):
                     declared.add((al.asname or al.name).split(".")[0])
             if isinstance(n, ast.ExceptHandler) and n.name:
                 declared.add(n.name)
+            if isinstance(n, (ast.FunctionDef, ast.AsyncFunctionDef, ast.ClassDef)) and n is not fn:
+                declared.add(n.name)  # `f = jit(f)` after `def f`: renaming the assignment only would break the code
         nested_names = set()
         for n in walk_no_nested(fn):
             if isinstance(n, (ast.FunctionDef, ast.AsyncFunctionDef, ast.Lambda, ast.ClassDef, ast.ListComp, ast.SetComp,
